@@ -8,7 +8,7 @@ bad = 0
 for m in ms:
     p = os.path.join('/repo', m['file'])
     s = open(p).read()
-    if s.count(m['old']) != 1:
+    if (s.count(m['old']) != 1 and not m.get('all')) or s.count(m['old']) == 0:
         print('%-4s SKIP (anchor occurs %d times)' % (m['id'], s.count(m['old'])))
         bad += 1
         continue
